@@ -1,9 +1,9 @@
-(* C18 — end to end: whatever path Tree.as_newick takes, a returned string parses back to
-   exactly the tree below the root with the requested labels and branch tokens; the only error
-   it can produce (in the model, on a represented tree) is the fast path's buffer overflow. *)
+(* C18 — end to end: whatever path Tree.as_newick takes it succeeds (the buffer estimate is
+   sufficient, the general writer is iterative) and the returned string parses back to exactly
+   the tree below the root with the requested labels and branch tokens. *)
 From Coq Require Import List ZArith Bool Lia.
 From TskVerif Require Import Base.Common Gen.Generated C18.Model C18.ParserProofs C18.WriterProofs
-  C18.BufferProofs C18.LabelProofs C18.FastaProofs C18.SafetyProofs.
+  C18.BufferProofs C18.LabelProofs C18.FastaProofs C18.SafetyProofs C18.IterProofs.
 Import ListNotations.
 Open Scope Z_scope.
 
@@ -36,25 +36,21 @@ Section AsNewick.
   Variable tsub : Tm -> Tm -> Tm.
   Variable print_num : Z -> Tm -> str.
   Variable tm : Z -> Tm.
-  Hypothesis print_num_clean : forall p x, cleanb (print_num p x) = true.
 
   Variable a : ctree.
   Variable N rp : Z.
   Variable t : rtree.
-  Variable whole_leaves : list Z.          (* list(tree.leaves()): leaves below tree.roots *)
   Hypothesis Hrep : repb a rp t = true.
   Hypothesis Hnd : nodupb (ids t) = true.
   Hypothesis Hrp : memb rp (ids t) = false.
-  Hypothesis Hrange : 0 <= rid t < N.
+  Hypothesis Hrange : forall v, In v (ids t) -> 0 <= v < N.
   Hypothesis Hflags : forall v, In v (ids t) -> exists f, get (ct_flags a) v = Ok f.
-  (* the requested root is part of the sample-bearing tree (otherwise finding M1) *)
-  Hypothesis Hlive : forall v, In v (ids t) -> memb v whole_leaves = memb v (leaf_ids t).
 
   Definition labels_clean (l : labspec) : Prop :=
     match l with LabDict d => forall v, In v (ids t) -> cleanb (lab_dict d v) = true | _ => True end.
 
   Lemma lab_fn_clean : forall l, labels_clean l ->
-    forall v, In v (ids t) -> cleanb (lab_fn a whole_leaves l v) = true.
+    forall v, In v (ids t) -> cleanb (lab_fn a t l v) = true.
   Proof.
     intros [| |d] H v Hv; cbn [lab_fn].
     - apply lab_default_clean.
@@ -62,53 +58,78 @@ Section AsNewick.
     - apply H; auto.
   Qed.
 
-  Theorem as_newick_ok_or_overflow : forall l ibl prec T,
-    as_newick Tm tsub print_num tm a N t whole_leaves l ibl prec T
-    = Ok (py_newick Tm tsub print_num tm (lab_fn a whole_leaves l) ibl prec t)
-    \/ (ibl = true /\ (l = LabDefault \/ l = LabMs) /\
-        estimate N T prec < zlen (py_build Tm tsub print_num tm (lab_fn a whole_leaves l) true prec t) + 2 /\
-        as_newick Tm tsub print_num tm a N t whole_leaves l ibl prec T = Err c18_err_buffer_overflow).
+  Lemma lab_ms_len : forall v, In v (ids t) -> zlen (lab_ms_of (leaf_ids t) v) <= 1 + zlen (dec N).
   Proof.
-    intros l ibl prec T.
-    assert (HND : NoDup (ids t)) by (apply nodupb_NoDup; auto).
-    assert (HRP : ~ In rp (ids t)) by (apply memb_false; auto).
-    destruct ibl; [|left; destruct l; reflexivity].
-    destruct l as [| |d]; [| |left; reflexivity]; cbn [as_newick lab_fn]; unfold as_newick_fast.
-    - rewrite (c_newick_any_buffer Tm tsub print_num tm a false prec rp (lab_default a) N t _ Hrep HND HRP Hrange).
-      + destruct (_ <=? _) eqn:E; [left; reflexivity|]. right. apply Z.leb_gt in E. repeat split; auto.
-      + intros v Hv. apply lab_default_agrees. auto.
-    - rewrite (c_newick_any_buffer Tm tsub print_num tm a true prec rp (lab_ms_of whole_leaves) N t _ Hrep HND HRP Hrange).
-      + destruct (_ <=? _) eqn:E; [left; reflexivity|]. right. apply Z.leb_gt in E. repeat split; auto.
-      + intros v Hv. apply lab_agrees_ext with (lab := lab_ms_of (leaf_ids t)).
-        * unfold lab_ms_of. rewrite (Hlive v Hv). reflexivity.
-        * eapply lab_ms_agrees; eauto.
+    intros v Hv. unfold lab_ms_of. destruct (memb v (leaf_ids t)).
+    - pose proof (dec_len_mono (v + 1) N). specialize (Hrange v Hv). lia.
+    - pose proof (dec_len_pos N). assert (zlen (@nil Z) = 0) by reflexivity. lia.
   Qed.
 
-  Theorem as_newick_parses_back : forall l ibl prec T s,
-    labels_clean l ->
-    as_newick Tm tsub print_num tm a N t whole_leaves l ibl prec T = Ok s ->
-    parse_newick s = Ok (ast_of Tm tsub print_num tm (lab_fn a whole_leaves l) ibl prec None t).
+  (* whatever the buffer estimate W is: the Python string, or (fast path only) overflow *)
+  Theorem as_newick_ok_or_overflow : forall l ibl prec W,
+    as_newick Tm tsub print_num tm a N t l ibl prec W
+    = Ok (py_newick Tm tsub print_num tm (lab_fn a t l) ibl prec t)
+    \/ (ibl = true /\ (l = LabDefault \/ l = LabMs) /\
+        estimate N W < zlen (py_build Tm tsub print_num tm (lab_fn a t l) true prec t) + 2 /\
+        as_newick Tm tsub print_num tm a N t l ibl prec W = Err c18_err_buffer_overflow).
   Proof.
-    intros l ibl prec T s Hc H.
-    destruct (as_newick_ok_or_overflow l ibl prec T) as [E|(_ & _ & _ & E)]; rewrite E in H; [|discriminate].
+    intros l ibl prec W.
+    assert (HND : NoDup (ids t)) by (apply nodupb_NoDup; auto).
+    assert (HRP : ~ In rp (ids t)) by (apply memb_false; auto).
+    assert (Hroot : 0 <= rid t < N) by (apply Hrange; apply rid_in_ids).
+    assert (Hpy : forall lab b, it_newick Tm tsub print_num tm lab b prec t
+                              = Ok (py_newick Tm tsub print_num tm lab b prec t))
+      by (intros; apply it_newick_eq_recursive; auto).
+    destruct ibl; [|left; destruct l; cbn [as_newick]; apply Hpy].
+    destruct l as [| |d]; [| |left; cbn [as_newick]; apply Hpy]; cbn [as_newick lab_fn]; unfold as_newick_fast.
+    - rewrite (c_newick_any_buffer Tm tsub print_num tm a false prec rp (lab_default a) N t _ Hrep HND HRP Hroot).
+      + destruct (_ <=? _) eqn:E; [left; reflexivity|]. right. apply Z.leb_gt in E. repeat split; auto.
+      + intros v Hv. apply lab_default_agrees. auto.
+    - rewrite (c_newick_any_buffer Tm tsub print_num tm a true prec rp (lab_ms_of (leaf_ids t)) N t _ Hrep HND HRP Hroot).
+      + destruct (_ <=? _) eqn:E; [left; reflexivity|]. right. apply Z.leb_gt in E. repeat split; auto.
+      + intros v Hv. eapply lab_ms_agrees; eauto.
+  Qed.
+
+  (* W = len(f"{max_branch:.{precision}f}") bounds every branch token (monotonicity of the
+     printed length in the value: trusted float rendering) => as_newick ALWAYS succeeds *)
+  Theorem as_newick_succeeds : forall l ibl prec W,
+    0 <= W ->
+    (forall p c, In (p, c) (redges t) -> zlen (btoken Tm tsub print_num tm prec p c) <= W) ->
+    as_newick Tm tsub print_num tm a N t l ibl prec W
+    = Ok (py_newick Tm tsub print_num tm (lab_fn a t l) ibl prec t).
+  Proof.
+    intros l ibl prec W HW Ht.
+    destruct (as_newick_ok_or_overflow l ibl prec W) as [E|(-> & Hl & Hlt & _)]; [exact E|].
+    exfalso.
+    assert (HND : NoDup (ids t)) by (apply nodupb_NoDup; auto).
+    assert (Hsz : Z.of_nat (rsize t) <= N).
+    { rewrite rsize_ids.
+      assert (length (ids t) <= Z.to_nat N)%nat.
+      { apply pigeon; auto. intros x Hx. specialize (Hrange x Hx). lia. }
+      assert (0 <= N) by (specialize (Hrange _ (rid_in_ids t)); lia). lia. }
+    pose proof (estimate_bound Tm tsub print_num tm (lab_fn a t l) prec t N W HW) as Hb.
+    assert (zlen (py_build Tm tsub print_num tm (lab_fn a t l) true prec t) + 2 <= estimate N W); [|lia].
+    apply Hb; auto.
+    destruct Hl as [-> | ->]; cbn [lab_fn]; intros v Hv.
+    - apply lab_default_len. specialize (Hrange v Hv). lia.
+    - apply lab_ms_len; auto.
+  Qed.
+
+  Hypothesis print_num_clean : forall p x, cleanb (print_num p x) = true.
+
+  Theorem as_newick_parses_back : forall l ibl prec W s,
+    labels_clean l ->
+    as_newick Tm tsub print_num tm a N t l ibl prec W = Ok s ->
+    parse_newick s = Ok (ast_of Tm tsub print_num tm (lab_fn a t l) ibl prec None t).
+  Proof.
+    intros l ibl prec W s Hc H.
+    destruct (as_newick_ok_or_overflow l ibl prec W) as [E|(_ & _ & _ & E)]; rewrite E in H; [|discriminate].
     inversion H; subst. apply newick_roundtrip; auto. apply lab_fn_clean; auto.
   Qed.
 End AsNewick.
 
-(* The hypothesis [Hlive] is needed (finding M1): for a requested root that is not below one of
-   tree.roots, the general path builds the legacy ms dictionary from tree.leaves() and leaves
-   the leaves of the requested subtree unlabelled, while the fast path labels them. *)
-Theorem as_newick_ms_dead_subtree_refuted :
-  exists (a : ctree) (N rp : Z) (t : rtree) (whole_leaves : list Z) (times : list Z),
-    repb a rp t = true /\ nodupb (ids t) = true /\ memb rp (ids t) = false /\
-    (* general path (no branch lengths): leaf 2 gets no label *)
-    as_newick Z Z.sub print_fixed (fx_tm times) a N t whole_leaves LabMs false 0 0 = Ok (s2z ";") /\
-    (* fast path (branch lengths): the same leaf is labelled 3 *)
-    as_newick Z Z.sub print_fixed (fx_tm times) a N t whole_leaves LabMs true 0 0 = Ok (s2z "3;") /\
-    parse_newick (s2z ";")
-    <> Ok (ast_of Z Z.sub print_fixed (fx_tm times) (lab_ms_of (leaf_ids t)) false 0 None t).
-Proof.
-  exists (mk_ctree [-1; 0; -1; 1] [-1; 0; -1; 1] [-1; -1; -1; -1] [1; -1; -1; -1] [1; 0; 0]),
-         3, (-1), (RN 2 []), [0], [0; 1; 2].
-  vm_compute. repeat split; try reflexivity. discriminate.
-Qed.
+Example ex_as_newick_ms_subtree :      (* node 2 is not below tree.roots; both paths label it (M1 fixed) *)
+  let a := mk_ctree [-1; 0; -1; 1] [-1; 0; -1; 1] [-1; -1; -1; -1] [1; -1; -1; -1] [1; 0; 0] in
+  as_newick Z Z.sub print_fixed (fx_tm [0; 1; 2]) a 3 (RN 2 []) LabMs false 0 1 = Ok (s2z "3;") /\
+  as_newick Z Z.sub print_fixed (fx_tm [0; 1; 2]) a 3 (RN 2 []) LabMs true 0 1 = Ok (s2z "3;").
+Proof. vm_compute. split; reflexivity. Qed.
